@@ -1084,6 +1084,12 @@ func genProcs(repo, out string) {
 			protoMaps: map[string]string{"conn.AllowedProtocols": "conn", "other.AllowedProtocols": "other"},
 			stmts: map[string]string{"conn.AllowedProtocols = map[v1.Protocol]*PortSet{}": "conn := { conn with tcp := none, udp := none, sctp := none }",
 				"conn.addAllConns()": "conn ← addAllConns conn"}},
+		{file: "pkg/netpol/internal/common/connectionset.go", fn: "ConnectionSet.Contains", lean: "connSetContains",
+			sig: "(conn : ConnSet) (port protocol : String) : Except Err Bool", pure: true, loopElem: "Proto", locals: []string{"intPort"},
+			atoms: map[string]string{"strings.EqualFold(protocol, string(allowedProtocol))": "(Proto.ofStrFold? protocol == some allowedProtocol)",
+				"allowedPorts.Contains(int64(intPort))": "(allowedPorts.contains (port.toInt?.getD 0))"},
+			stmts: map[string]string{"intPort, err := strconv.Atoi(port)": "let intPort := port.toInt?", "if err != nil { return false }": "if intPort.isNone then return false"},
+			protoMaps: map[string]string{"conn.AllowedProtocols": "conn"}},
 		{file: "pkg/netpol/internal/common/connectionset.go", fn: "ConnectionSet.Equal", lean: "connSetEqual",
 			sig: "(conn other : ConnSet) : Except Err Bool", pure: true, loopElem: "Proto",
 			atoms:     map[string]string{"len(conn.AllowedProtocols)": "conn.numProtos", "len(other.AllowedProtocols)": "other.numProtos"},
